@@ -404,6 +404,7 @@ func c17TokenPos(c *Ctx) {
 
 func c17LnCol(c *Ctx) {
 	r, t := c.R, c.T
+	c17LineBreaks(c)
 	for _, fn := range []*ssa.Function{t.Method(pToken, "PosCache", "LnCol"), t.Func(pToken, "LnCol")} {
 		if fn == nil {
 			r.Undecided("LNCOL", "token.LnCol routines", "pkg/token/token.go", "unresolved anchor")
@@ -792,4 +793,65 @@ func copyFreshObligation(c *Ctx, rule string) {
 		}
 	})
 	r.Ob(rule, "PlError.Copy builds PosChain in fresh storage", t.Pos(cp.Pos()), fresh, "the copy must not share the original's backing array: appending a call site to one copy would overwrite the call site recorded in another copy of the same stored error")
+}
+
+// c17LineBreaks: the two routines that turn offsets into lines record every '\n' (unconditionally under that test).
+func c17LineBreaks(c *Ctx) {
+	r, t := c.R, c.T
+	for _, fn := range []*ssa.Function{t.Func(pToken, "NewPosCache"), t.Func(pToken, "LnCol")} {
+		if fn == nil {
+			r.Undecided("LNCOL", "token.NewPosCache / token.LnCol", "pkg/token/token.go", "unresolved anchor")
+			continue
+		}
+		r.Fn(relName(fn))
+		// every line break counts: the line bookkeeping sits under the test c == '\n' and nothing else
+		{
+			nNL, okNL := 0, true
+			extra := ""
+			allInstrs(fn, func(in ssa.Instruction) {
+				iff, ok := in.(*ssa.If)
+				if !ok {
+					return
+				}
+				bo, ok := iff.Cond.(*ssa.BinOp)
+				if !ok || bo.Op != token.EQL {
+					return
+				}
+				if k, isC := constInt(bo.Y); !isC || k != 10 {
+					return
+				}
+				nNL++
+				// the true successor does the bookkeeping directly
+				tb := iff.Block().Succs[0]
+				var loop *natLoop
+				for _, l := range naturalLoops(fn) {
+					if l.Blocks[iff.Block()] && (loop == nil || len(l.Blocks) < len(loop.Blocks)) {
+						loop = l
+					}
+				}
+				for _, ec := range controlling(tb) {
+					if ec.If == iff.Block() || loop == nil || !loop.Blocks[ec.If] || ec.If == loop.Header {
+						continue // only per-iteration conditions matter (not the entry checks, not the loop test)
+					}
+					cs := ec.String()
+					// loop conditions of the range are fine; any other data condition is not
+					if strings.Contains(cs, "rangeindex") || strings.Contains(cs, "next(") || strings.Contains(cs, "#0") {
+						continue
+					}
+					if b2, ok := ec.Cond.(*ssa.BinOp); ok && (strings.Contains(path(b2.X), "phi:") && strings.Contains(path(b2.Y), "len(")) {
+						continue
+					}
+					okNL = false
+					extra = cs
+				}
+				if len(tb.Instrs) > 0 {
+					if i2, ok := tb.Instrs[len(tb.Instrs)-1].(*ssa.If); ok {
+						okNL = false
+						extra = "a further test follows: " + condStr(i2.Cond)
+					}
+				}
+			})
+			r.Ob("LNCOL", relName(fn)+" counts every line break", t.Pos(fn.Pos()), nNL == 1 && okNL, fmt.Sprintf("%d tests `c == '\\n'`; extra condition on the bookkeeping: %q — a line break that is not recorded shifts every later position to the previous line", nNL, extra))
+		}
+	}
 }
